@@ -69,7 +69,7 @@ def spaces(tier, seed):
                                                 "adl": [True], "base": [True]}),
         Product("depth3-core8", {"lang": LANGS, "i": range(8), "j": range(8), "k": range(8), "sel": ["lang"], "adl": [True], "base": [True, False] if T else [True]}),
     ]
-    sp.append(Product("date-skipword-number", {"lang": LANGS, "d": range(4), "w": range(16), "n": ["5", "10:00", "12 2014"], "sel": ["lang"],
+    sp.append(Product("date-skipword-number", {"lang": LANGS, "d": range(4), "w": range(18), "n": ["5", "10:00", "12 2014"], "sel": ["lang"],
                                                "adl": [True], "base": [True]},
                       note="a date-ish token, then each skip word / 'in' / 'ago' word of the language, then a number"))
     sp.append(Product("glued-punctuation", {"lang": LANGS, "i": range(6), "j": range(6), "glue": [",", "'", ".", "-", ":", "/", ";", ")(", "\u2019", ",,"],
@@ -90,7 +90,7 @@ def text_of(sub, c):
         return [p, p + ".", fill[0] + (joiner or "") + p if joiner else fill[0] + p, p + joiner + "12"][c["ctx"]]
     if sub == "date-skipword-number":
         info = vocab.locale_info(c["lang"])
-        words = [w for w in (info.get("skip") or []) if w.strip() and any(ch.isalpha() for ch in w)][:10] + (info.get("in") or [])[:3] + (info.get("ago") or [])[:3]
+        words = [w for w in (info.get("skip") or []) if w.strip() and any(ch.isalpha() for ch in w)][:10] + (info.get("in") or [])[:3] + (info.get("ago") or [])[:3] + list(fill)   # fill: e.g. ru 'с', which search_dates special-cases
         dts = [x for x in (core8[:3] + ["15 " + core8[0]])]
         if c["w"] >= len(words) or c["d"] >= len(dts):
             return None
